@@ -47,6 +47,11 @@ func loadWorld(repo string) (*World, error) {
 	w.heap("A_Val", "(Array Int (Array Int Val))")
 	w.heap("A_Str", "(Array Int (Array Int Str))")
 	w.heap("A_Int", "(Array Int (Array Int Int))")
+	w.heap("C_Val", "(Array Int Val)")
+	w.heap("C_Int", "(Array Int Int)")
+	w.heap("C_Str", "(Array Int Str)")
+	w.heap("C_Slice", "(Array Int Slice)")
+	w.heap("C_Bool", "(Array Int Bool)")
 	for _, g := range []string{"G_mine", "G_held", "G_esc"} {
 		w.ghostHeap(g)
 	}
@@ -223,6 +228,7 @@ func main() {
 	lemmaObls := w.lemmaObligations(opts, wantProps, re)
 	all = append(all, lemmaObls...)
 
+	all = append(all, w.readSetObligations(wantProps, re)...)
 	prelude := w.fullPrelude()
 	if *dump != "" {
 		for _, o := range all {
@@ -357,6 +363,75 @@ func (w *World) lemmaObligations(opts *Options, wantProps map[string]bool, re *r
 			os.Exit(2)
 		}
 		o := &Obligation{Name: "lemma:" + lm.Name, Kind: "lemma", Fn: "lemma:" + lm.Name, Goal: t, NDecl: len(ex.decls), ex: ex, Props: lm.Props}
+		out = append(out, o)
+	}
+	return out
+}
+
+// readSetObligations: structural checks "field T.f is loaded/stored only in the listed functions"
+// (decided on the SSA, no solver).  Allowed entries ending in '*' are prefixes.
+func (w *World) readSetObligations(wantProps map[string]bool, re *regexp.Regexp) []*Obligation {
+	var out []*Obligation
+	for _, rs := range w.specs.ReadSets {
+		if re != nil && !re.MatchString("readset:"+rs.Name) {
+			continue
+		}
+		if len(wantProps) > 0 {
+			hit := false
+			for _, p := range rs.Props {
+				if wantProps[p] {
+					hit = true
+				}
+			}
+			if !hit {
+				continue
+			}
+		}
+		k := strings.LastIndex(rs.Field, ".")
+		tn, fld := rs.Field[:k], rs.Field[k+1:]
+		allowed := func(name string) bool {
+			for _, a := range rs.Allowed {
+				if a == name || (strings.HasSuffix(a, "*") && strings.HasPrefix(name, strings.TrimSuffix(a, "*"))) {
+					return true
+				}
+			}
+			return false
+		}
+		var bad []string
+		var names []string
+		for n := range w.funcByName {
+			names = append(names, n)
+		}
+		sort.Strings(names)
+		for _, n := range names {
+			fn := w.funcByName[n]
+			if allowed(n) || fn.Synthetic != "" {
+				continue
+			}
+			for _, b := range fn.Blocks {
+				for _, in := range b.Instrs {
+					fa, ok := in.(*ssa.FieldAddr)
+					if !ok {
+						continue
+					}
+					st := derefType(fa.X.Type())
+					if typeKey(st) != tn {
+						continue
+					}
+					if st.Underlying().(*types.Struct).Field(fa.Field).Name() == fld {
+						bad = append(bad, n)
+					}
+				}
+			}
+		}
+		o := &Obligation{Name: "readset:" + rs.Name, Kind: "readset", Fn: "readset:" + rs.Name, Props: rs.Props, ex: &Exec{w: w}}
+		if len(bad) == 0 {
+			o.Status, o.Solver, o.Goal = "proved", "ssa-scan", "true"
+		} else {
+			o.Status, o.Solver, o.Goal = "failed", "ssa-scan", "false"
+			o.Output = "field " + rs.Field + " is also accessed in: " + strings.Join(bad, ", ")
+		}
+		o.Structural = true
 		out = append(out, o)
 	}
 	return out
